@@ -34,11 +34,22 @@ def queries(tier):
         qs.append(Query(name='gc-step[chain of two ephemerons, first key %s]' % ('reachable' if kr else 'unreachable'), harness='C10_heap.c',
                         units=UNITS, unit_defs=UD, defs=d, unwind=10, unwindset={'memset.0': 6, 'memset.1': 2}, remove_bodies=EXC, cap=cap,
                         backends=['cadical', 'minisat'], functions=FUNCTIONS))
+    # finalizers: file-descriptor object + port over it; reachability of each per query, flags and share count free
+    for pr, fr in ((0, 0), (0, 1), (1, 0)):
+        for after in (0, 1):
+            d = {'MODE': 6, 'K': 6, 'PORT_REACHABLE': pr, 'FD_REACHABLE': fr}
+            if after:
+                d['FD_AFTER_PORT'] = 1
+            nm = 'port %s, descriptor %s, descriptor %s the port in the heap' % ('reachable' if pr else 'unreachable', 'reachable' if (fr or pr) else 'unreachable', 'behind' if after else 'before')
+            qs.append(Query(name='gc-step[finalizers: %s]' % nm, harness='C10_heap.c', units=UNITS, unit_defs=UD, defs=d, unwind=10,
+                            unwindset={'memset.0': 6, 'memset.1': 2}, remove_bodies=EXC, cap=cap, backends=['cadical', 'minisat'],
+                            functions=FUNCTIONS + ['sexp_finalize', 'sexp_finalize_port', 'sexp_finalize_fileno']))
     return qs
 
 
-BOUNDS = {'heap': 'sentinel + 4 slots: root pair, ephemeron, key object, value object; the root references the key or not (free), the value refers back to the key or not (free)',
+BOUNDS = {'finalizers': 'sentinel + 6 slots: root pair, file-descriptor object, input port over it (3 slots), spare pair; reachability per query; open/no-close flags of both and the share count (1|2) free; close() counted; finalize, sweep, finalize again',
+          'heap': 'sentinel + 4 slots: root pair, ephemeron, key object, value object; the root references the key or not (free), the value refers back to the key or not (free)',
           'sequence': 'sexp_mark from the root, ephemeron value pass, sexp_reset_weak_references, sexp_sweep (the body of sexp_gc without the walk over the context object)'}
 ASSUMPTIONS = R_ASSUME + ['gc.c textually included; marking starts from a root object inside the heap instead of the context (the context walk is the same sexp_mark_one code on a much larger graph)']
-OUTSIDE = ['finalizers of ports / file descriptors (close exactly once): not encoded in this tier', 'collect-and-retry on EMFILE (needs real descriptors)',
+OUTSIDE = ['output ports (flush on finalization), stream-backed ports (fclose), sockets (shutdown)', 'collect-and-retry on EMFILE (needs real descriptors)',
            'weak hash tables written in Scheme', 'more than two ephemerons']
